@@ -318,6 +318,8 @@ type frame struct {
 	fn     *ssa.Function
 	info   *fnInfo
 	regs   map[ssa.Value]Value
+	cur    map[ssa.Value]Value // loop-escaping values: the unmerged value of the current iteration (for uses inside the loop)
+	curB   *ssa.BasicBlock
 	inG    map[*ssa.BasicBlock]*Term
 	phiAcc map[*ssa.Phi]Value
 	retG   *Term
@@ -361,7 +363,7 @@ func (e *Engine) callFn(caller *frame, fn *ssa.Function, args []Value, binds []V
 		panic(unsupported("call depth exceeded at " + fn.String()))
 	}
 	e.callLog[fn.String()]++
-	fr := &frame{e: e, fn: fn, info: e.info(fn), regs: map[ssa.Value]Value{}, inG: map[*ssa.BasicBlock]*Term{},
+	fr := &frame{e: e, fn: fn, info: e.info(fn), regs: map[ssa.Value]Value{}, cur: map[ssa.Value]Value{}, inG: map[*ssa.BasicBlock]*Term{},
 		phiAcc: map[*ssa.Phi]Value{}, retG: tFalse, caller: caller, entryG: g}
 	for i, p := range fn.Params {
 		if i < len(args) {
@@ -481,6 +483,7 @@ func (fr *frame) setReg(v ssa.Value, val Value, g *Term) {
 		val = fr.ctx(t, g)
 	}
 	if fr.info.escapes[v] {
+		fr.cur[v] = val
 		if old, ok := fr.regs[v]; ok && old != nil {
 			fr.regs[v] = merge(g, val, old)
 			return
@@ -536,6 +539,7 @@ func (fr *frame) execBlock(b *ssa.BasicBlock) {
 	if g.IsFalse() {
 		return
 	}
+	fr.curB = b
 	e := fr.e
 	for _, in := range b.Instrs {
 		e.steps++
@@ -630,6 +634,16 @@ func (fr *frame) val(v ssa.Value) Value {
 		return &FuncV{A: []FuncAlt{{G: tTrue, Fn: x}}}
 	case *ssa.Builtin:
 		return &FuncV{A: []FuncAlt{{G: tTrue, Builtin: x.Name()}}}
+	}
+	// a loop-escaping value used INSIDE its loop: by SSA dominance the use is
+	// preceded by this iteration's definition, so the unmerged value applies
+	// (the merge over iterations is only for uses after the loop)
+	if c, ok := fr.cur[v]; ok && fr.curB != nil {
+		if in, isI := v.(ssa.Instruction); isI {
+			if L := fr.info.inner[in.Block()]; L != nil && L.body[fr.curB] {
+				return c
+			}
+		}
 	}
 	r, ok := fr.regs[v]
 	if !ok {
